@@ -72,6 +72,42 @@ def r_ellps_validated(cx):
                 ok = True
                 why = "ParsedParameters::new validates every ellps* text value with Ellipsoid::named(..)? before " \
                       "returning Ok"
+    # ... and nobody puts an unvalidated name into the text map afterwards: outside ParsedParameters::new, a value stored
+    # under an `ellps*` key of a ParsedParameters' text map is a literal or comes from a validated read (`params.text(..)?`)
+    import keys as K
+    adt = cx.f.lib["adts"].get(PP)
+    fields = [x["name"] for x in adt["variants"][0]["fields"]] if adt else []
+    w = 0
+    for name in sorted(cx.f.lib["fns"]):
+        if "::tests::" in name or name.startswith(PP + "::new"):
+            continue
+        f = cx.f.fn(name)
+        for bb, t in f.calls():
+            if not ((f.callee(t) or "").endswith("BTreeMap::<K, V, A>::insert") and "String" in (t.get("callee_full") or "")):
+                continue
+            a = f.arg_terms(bb)
+            key = K._const_key(a[1]) if len(a) > 2 else None
+            if not (key and key.startswith("ellps")):
+                continue
+            recv = a[0]
+            path = recv[3] if recv[0] == "refplace" else ()
+            if not (path and path[-1][0] == "f" and path[-1][1] < len(fields) and fields[path[-1][1]] == "text"):
+                continue
+            w += 1
+            v = mir.strip_refs(a[2])
+            for _ in range(4):
+                if v[0] == "proj":
+                    v = mir.strip_refs(v[1])
+                elif v[0] == "call" and isinstance(v[1], str) and v[1].rsplit("::", 1)[-1] in ("branch", "clone", "to_string", "to_owned", "from", "unwrap") and v[2]:
+                    v = mir.strip_refs(v[2][0])
+            good = (v[0] == "call" and isinstance(v[1], str) and v[1] == PP + "::text") or \
+                (v[0] == "const" and isinstance(v[2], tuple) and v[2][0] == "str")
+            cx.ob("R-ELLPS-VALIDATED", "%s/stores-%s" % (name, key), good,
+                  "%s stores a validated name under `%s`" % (name, key) if good else
+                  "%s stores a value under `%s` of the text map that has not been through the validation of "
+                  "ParsedParameters::new (the raw text of the step, e.g. `$from` or `(intl)`): `params.ellps(..)` unwraps "
+                  "Ellipsoid::named on it and panics at instantiation" % (name, key), cx.where(t["span"]))
+    cx.count("R-ELLPS-VALIDATED", "ellps_writers", w)
     for (name, bb) in sites:
         f = cx.f.fn(name)
         cx.ob("R-ELLPS-VALIDATED", "%s/unwrap%d" % (name, [s for s in sites if s[0] == name].index((name, bb))), ok,
